@@ -282,6 +282,15 @@ func (r *Run) run(ctx context.Context) {
 		if poolManager.MaxIterationsReached() {
 			r.output.Display(r.result.MaxIterationsReached())
 		}
+	case <-time.After(r.waitForCompletionTimeout):
+		// The trigger has returned - the iteration limit was reached, or its stages are over - but the
+		// iterations in flight have not finished: the same bound applies as when the duration ends.
+		if poolManager.MaxIterationsReached() {
+			r.output.Display(r.result.MaxIterationsReached())
+		}
+		r.output.Display(ui.WarningMessage{
+			Message: fmt.Sprintf("Active tests not completed after %s. Stopping...", r.waitForCompletionTimeout.String()),
+		})
 	}
 }
 
